@@ -1,9 +1,13 @@
 (* C13 — wire format, model runner and the trace oracle prop_ok. Definitions only.
 
-   case  = max_inb(0 = unlimited, k+1 = Some k)  ndial  max_size  n  op_1 .. op_n
+   case  = max_inb(0 = unlimited, k+1 = Some k)  ndial  max_size  selfp  ccap  n  op_1 .. op_n
+           (selfp: peer 3 is the local peer id; ccap: capacity of the command channel, 0 = default)
+   op    = one stimulus of the harness = one or more model events (a burst of try_send_request
+           calls, two stimuli made ready at the same instant in the order the implementation chose)
    trace = 1  step_1 .. step_n        (or [0] when the case does not parse)
    step  = target(0 = none, t+1)  nevents  event*  dump
-   event = 1 rid | 2 rid len tag | 3 rid code | 4 irid peer len tag | 5 chan len tag | 7 irid ok   (sorted)
+   event = 1 rid | 2 rid len tag | 3 rid code | 4 irid peer len tag | 5 chan len tag | 7 irid ok |
+           8 sid peer | 9 rid name | 10 irid name   (sorted)
    dump  = peers (p, active ids, inbound ids)*  dials (p, ids)*  pending_outbound (sid p rid)*
            cancel ids  #request futures  #inbound readers  #responders *)
 From Coq Require Import List NArith Bool.
@@ -15,43 +19,82 @@ Open Scope N_scope.
 
 Definition TMO : N := REQUEST_TIMEOUT_SECS * 1000.
 
-Definition p_ev : parser ev :=
+Definition NPEERS : N := 4.
+Definition DEFAULT_CHANNEL : N := 4096.
+
+Fixpoint burst (n : nat) (room : nat) (mk : ev) : list ev :=
+  match n with
+  | O => []
+  | S n' => match room with
+            | O => EBurn :: burst n' O mk
+            | S r' => mk :: burst n' r' mk
+            end
+  end.
+
+(* ccap: capacity of the command channel (already resolved: > 0) *)
+Definition p_op (ccap : N) : parser (list ev) :=
   let* tag := pN in
   match tag with
-  | 0 => let* p := pN in let* d := pBool in let* l := pN in let* t := pN in pret (ESend p d l t)
-  | 1 => let* r := pN in pret (ECancel r)
-  | 2 => let* p := pN in let* b := pBool in let* cap := pN in pret (EEstablished p b cap)
-  | 3 => let* p := pN in pret (EClosed p)
-  | 4 => let* p := pN in pret (EDialFail p)
-  | 5 => let* k := pN in let* g := pN in pret (EOpened k g)
-  | 6 => let* k := pN in let* u := pBool in pret (EOpenFail k u)
-  | 7 => let* k := pN in pret (EUnblock k)
-  | 8 => let* k := pN in pret (EBreakW k)
-  | 9 => let* k := pN in let* l := pN in let* t := pN in pret (ERespond k l t)
-  | 10 => let* k := pN in pret (EEof k)
-  | 11 => let* k := pN in pret (EErr k)
-  | 12 => let* d := pN in pret (EAdvance d)
-  | 13 => let* p := pN in let* g := pN in pret (EInOpen p g)
-  | 14 => let* k := pN in let* l := pN in let* t := pN in pret (EInReq k l t)
-  | 15 => let* k := pN in let* l := pN in let* t := pN in let* fb := pBool in pret (EURespond k l t fb)
-  | 16 => let* k := pN in pret (EUReject k)
-  | 17 => let* p := pN in pret (EBreakConn p)
+  | 0 => let* p := pN in let* d := pBool in let* l := pN in let* t := pN in
+         let* fn := pN in let* fl := pN in let* ft := pN in
+         pret [ESend p d l t (if fn =? 0 then None else Some (fn, fl, ft))]
+  | 1 => let* r := pN in pret [ECancel r]
+  | 2 => let* p := pN in let* b := pBool in let* cap := pN in pret [EEstablished p b cap]
+  | 3 => let* p := pN in pret [EClosed p]
+  | 4 => let* p := pN in pret [EDialFail p]
+  | 5 => let* k := pN in let* g := pN in let* ng := pN in pret [EOpened k g ng]
+  | 6 => let* k := pN in let* u := pBool in pret [EOpenFail k u]
+  | 7 => let* k := pN in pret [EUnblock k]
+  | 8 => let* k := pN in pret [EBreakW k]
+  | 9 => let* k := pN in let* l := pN in let* t := pN in pret [ERespond k l t]
+  | 10 => let* k := pN in pret [EEof k]
+  | 11 => let* k := pN in pret [EErr k]
+  | 12 => let* d := pN in pret [EAdvance d]
+  | 13 => let* p := pN in let* g := pN in let* ng := pN in pret [EInOpen p g ng]
+  | 14 => let* k := pN in let* l := pN in let* t := pN in pret [EInReq k l t]
+  | 15 => let* k := pN in let* l := pN in let* t := pN in let* fb := pBool in pret [EURespond k l t fb]
+  | 16 => let* k := pN in pret [EUReject k]
+  | 17 => let* p := pN in pret [EBreakConn p]
+  (* n try_send_request calls back to back: the command channel takes the first ccap, the others
+     fail with ChannelClogged after having drawn their request id *)
+  | 18 => let* p := pN in let* d := pBool in let* n := pN in let* l := pN in let* t := pN in
+          if 64 <? n then pfail else pret (burst (N.to_nat n) (N.to_nat ccap) (ESend p d l t None))
+  (* two things become ready at the same instant; `first` is the order in which the implementation
+     looked at them (its select! is unbiased), observed by the harness *)
+  | 19 => let* k := pN in let* l := pN in let* t := pN in let* d := pN in let* first := pBool in
+          pret (if first then [EAdvance d; ERespond k l t] else [ERespond k l t; EAdvance d])
+  | 20 => let* k := pN in let* l := pN in let* t := pN in let* r := pN in let* first := pBool in
+          pret (if first then [ECancel r; ERespond k l t] else [ERespond k l t; ECancel r])
+  | 21 => let* r := pN in let* d := pN in let* first := pBool in
+          pret (if first then [EAdvance d; ECancel r] else [ECancel r; EAdvance d])
+  | 22 => pret [EDropManager]
   | _ => pfail
   end.
 
-Definition NPEERS : N := 4.
 Definition ev_peer_ok (e : ev) : bool :=
   match e with
   | EEstablished p _ cap => (p <? NPEERS) && (cap <=? 4096)
-  | ESend p _ _ _ | EClosed p | EDialFail p | EInOpen p _ | EBreakConn p => p <? NPEERS
+  | EOpened _ _ ng | EInOpen _ _ ng => ng <=? 2
+  | ESend p _ _ _ fb => (p <? NPEERS) && match fb with Some (fn, _, _) => fn <=? 2 | None => true end
+  | EClosed p | EDialFail p | EBreakConn p => p <? NPEERS
   | _ => true
   end.
+Definition ev_ok (e : ev) : bool :=
+  ev_peer_ok e && match e with EInOpen p _ _ => p <? NPEERS | _ => true end.
 
-Definition decode_case (l : list N) : option (cfg * list ev) :=
-  match pall (let* mi := pN in let* nd := pN in let* ms := pN in let* evs := plist p_ev in
-              pret (mkCfg (dec_opt mi) (N.min nd NPEERS) ms TMO, evs)) l with
-  | Some (c, evs) => if forallb ev_peer_ok evs then Some (c, evs) else None
-  | None => None
+Definition decode_case (l : list N) : option (cfg * list (list ev)) :=
+  match l with
+  | mi :: nd :: ms :: sp :: cc :: rest =>
+    let ccap := if cc =? 0 then DEFAULT_CHANNEL else cc in
+    if 4096 <? cc then None else
+    match pall (plist (p_op ccap)) rest with
+    | Some ops =>
+      if forallb (forallb ev_ok) ops
+      then Some (mkCfg (dec_opt mi) (N.min nd NPEERS) ms TMO (negb (sp =? 0)), ops)
+      else None
+    | None => None
+    end
+  | _ => None
   end.
 
 (* ---- encoders ---- *)
@@ -64,8 +107,13 @@ Definition out_key (o : out) : N :=
   | OFail r _ => 3 * 1099511627776 + r
   | OReq r _ _ _ => 4 * 1099511627776 + r
   | OWire c _ _ => 5 * 1099511627776 + c
+  | OWireR c _ _ => 5 * 1099511627776 + c
   | OBind c _ => 6 * 1099511627776 + c
   | OFeed r _ => 7 * 1099511627776 + r
+  | OOpen sid _ => 8 * 1099511627776 + sid
+  | OFbResp r _ => 9 * 1099511627776 + r
+  | OFbReq r _ => 10 * 1099511627776 + r
+  | ODial p => 11 * 1099511627776 + p
   end.
 Definition enc_out (o : out) : list N :=
   match o with
@@ -74,10 +122,15 @@ Definition enc_out (o : out) : list N :=
   | OFail r c => [3; r; c]
   | OReq r p l t => [4; r; p; l; canon_tag l t]
   | OWire c l t => [5; c; l; canon_tag l t]
+  | OWireR c l t => [5; c; l; canon_tag l t]
   | OBind _ _ => []
   | OFeed r ok => [7; r; b2n ok]
+  | OOpen sid p => [8; sid; p]
+  | OFbResp r n => [9; r; n]
+  | OFbReq r n => [10; r; n]
+  | ODial _ => []
   end.
-Definition printed (o : out) : bool := match o with OBind _ _ => false | _ => true end.
+Definition printed (o : out) : bool := match o with OBind _ _ | ODial _ => false | _ => true end.
 
 Fixpoint dedup (l : list N) : list N :=
   match l with
@@ -97,16 +150,26 @@ Definition dump (s : pst) : list N :=
   enc_list (fun x => [x]) (sort_by idN (map (fun f => q_rid (f_req f)) (filter (fun f => negb (f_cancel f)) (futs s)))) ++
   [N.of_nat (length (futs s)); N.of_nat (length (rdrs s)); N.of_nat (length (rsps s))].
 
-Fixpoint run_trace (c : cfg) (st : pst * env) (l : list ev) : list N :=
+(* one harness stimulus = the model events of that stimulus in a row: outputs concatenated,
+   target of the first event that has one *)
+Fixpoint run_op (c : cfg) (st : pst * env) (es : list ev) : (pst * env) * list out * option N :=
+  match es with
+  | [] => (fst (fst (step c st EDrain)), [], None)   (* the harness drains the command channels *)
+  | e :: t => let '(st1, o, tg) := step c st e in
+              let '(st2, o2, tg2) := run_op c st1 t in
+              (st2, o ++ o2, match tg with Some x => Some x | None => tg2 end)
+  end.
+
+Fixpoint run_trace (c : cfg) (st : pst * env) (l : list (list ev)) : list N :=
   match l with
   | [] => []
-  | e :: t => let '(st1, o, tg) := step c st e in
-              enc_opt tg :: enc_list enc_out (sort_by out_key (filter printed o)) ++ dump (fst st1) ++ run_trace c st1 t
+  | es :: t => let '(st1, o, tg) := run_op c st es in
+               enc_opt tg :: enc_list enc_out (sort_by out_key (filter printed o)) ++ dump (fst st1) ++ run_trace c st1 t
   end.
 
 Definition run_case (l : list N) : list N :=
   match decode_case l with
-  | Some (c, evs) => 1 :: run_trace c (init_pst, init_env) evs
+  | Some (c, ops) => 1 :: run_trace c (init_pst, init_env) ops
   | None => [0]
   end.
 
@@ -127,6 +190,13 @@ Definition p_out : parser out :=
   | 4 => let* r := pN in let* p := pN in let* l := pN in let* t := pN in pret (OReq r p l t)
   | 5 => let* c := pN in let* l := pN in let* t := pN in pret (OWire c l t)
   | 7 => let* r := pN in let* ok := pBool in pret (OFeed r ok)
+  | 8 => let* sid := pN in let* p := pN in pret (OOpen sid p)
+  | 9 => let* r := pN in let* n := pN in pret (OFbResp r n)
+  | 10 => let* r := pN in let* n := pN in pret (OFbReq r n)
+  (* harness marker "the single-stepped copy (1) / the small-channel run (2) of the event loop saw
+     something else than the real run at this stimulus": accepted and ignored by the oracle (the
+     events printed are the real loop's); the model never prints it, so the case disagrees *)
+  | 99 => let* w := pN in pret (OBind w 0)
   | _ => pfail
   end.
 
@@ -157,10 +227,12 @@ Definition resps (o : list out) : list (N * N * N) :=
 Definition reqs (o : list out) : list (N * N * N) :=
   flat_map (fun x => match x with OReq r _ l t => [(r, l, t)] | _ => [] end) o.
 
-(* the request payload of every id handed out so far: (rid, len, canonical tag) *)
-Definition sent_payloads (e : ev) (o : list out) : list (N * N * N) :=
-  match e with
-  | ESend _ _ l t => map (fun r => (r, l, canon_tag l t)) (sent_ids o)
+(* the request payloads (main and fallback) of every id handed out so far: (rid, len, canonical tag) *)
+Definition sent_payloads (es : list ev) (o : list out) : list (N * N * N) :=
+  match find (fun e => match e with ESend _ _ _ _ _ => true | _ => false end) es with
+  | Some (ESend _ _ l t fb) =>
+    flat_map (fun r => (r, l, canon_tag l t) ::
+                       match fb with Some (_, fl, ft) => [(r, fl, canon_tag fl ft)] | None => [] end) (sent_ids o)
   | _ => []
   end.
 
@@ -169,13 +241,13 @@ Definition wire_seen (c len tag : N) (hist : list out) : bool :=
 
 (* hist: everything observed before this step; sp: request payloads by id; used: inbound
    channels that already produced a RequestReceived *)
-Fixpoint steps_ok (mi : option N) (evs : list ev) (tr : list ostep)
+Fixpoint steps_ok (mi : option N) (ops : list (list ev)) (tr : list ostep)
          (hist : list out) (sp : list (N * N * N)) (used : list N) : bool :=
-  match evs, tr with
+  match ops, tr with
   | [], [] => true
-  | e :: evs', s :: tr' =>
+  | es :: ops', s :: tr' =>
     let o := o_outs s in
-    let sp' := sp ++ sent_payloads e o in
+    let sp' := sp ++ sent_payloads es o in
     (* ledger (Proofs.inv_cov, proved for the model; re-checked here on the real bookkeeping): a
        request that is active at a peer has a substream being opened or a future in flight, so
        "nothing outstanding" implies "nothing owed" *)
@@ -186,21 +258,24 @@ Fixpoint steps_ok (mi : option N) (evs : list ev) (tr : list ostep)
                       | OFeed _ true => existsb (fun y => match y with OWire _ _ _ => true | _ => false end) o
                       | _ => true end) o &&
     (if existsb (fun x => match x with OFeed _ _ => true | _ => false end) o
-     then match e with EURespond _ _ _ _ | EUnblock _ | EBreakW _ | EAdvance _ => true | _ => false end
+     then existsb (fun e => match e with EURespond _ _ _ _ | EUnblock _ | EBreakW _ | EAdvance _ => true | _ => false end) es
      else true) &&
     (* inbound bound *)
     match mi with Some m => d_nrd (o_dump s) + d_nrs (o_dump s) <=? m | None => true end &&
     (* every terminal event answers an id that was handed out *)
     forallb (fun r => existsb (fun x => fst (fst x) =? r) sp') (term_ids o) &&
-    (* a response is what the responder supplied, on the substream that carried this request *)
+    (* a response is what the responder supplied, on the substream that carried this request
+       (its main or its fallback variant) *)
     match resps o with
     | [] => true
     | [(r, l, t)] =>
-      match e, o_target s with
-      | ERespond _ l' t', Some c =>
-        (l =? l') && (t =? canon_tag l' t') &&
+      match o_target s with
+      | Some c =>
+        existsb (fun e => match e with
+                          | ERespond _ l' t' => (l =? l') && (t =? canon_tag l' t')
+                          | _ => false end) es &&
         existsb (fun x => (fst (fst x) =? r) && wire_seen c (snd (fst x)) (snd x) hist) sp'
-      | _, _ => false
+      | None => false
       end
     | _ => false
     end &&
@@ -208,19 +283,22 @@ Fixpoint steps_ok (mi : option N) (evs : list ev) (tr : list ostep)
     match reqs o with
     | [] => true
     | [(_, l, t)] =>
-      match e, o_target s with
-      | EInReq _ l' t', Some c => (l =? l') && (t =? canon_tag l' t') && negb (memN c used)
-      | _, _ => false
+      match o_target s with
+      | Some c =>
+        existsb (fun e => match e with
+                          | EInReq _ l' t' => (l =? l') && (t =? canon_tag l' t')
+                          | _ => false end) es && negb (memN c used)
+      | None => false
       end
     | _ => false
     end &&
-    steps_ok mi evs' tr' (hist ++ o) sp'
+    steps_ok mi ops' tr' (hist ++ o) sp'
              (match reqs o, o_target s with _ :: _, Some c => c :: used | _, _ => used end)
   | _, _ => false
   end.
 
-Definition cancel_ids (evs : list ev) : list N :=
-  flat_map (fun e => match e with ECancel r => [r] | _ => [] end) evs.
+Definition cancel_ids (ops : list (list ev)) : list N :=
+  flat_map (flat_map (fun e => match e with ECancel r => [r] | _ => [] end)) ops.
 
 Definition final_quiescent (tr : list ostep) : bool :=
   match rev tr with
